@@ -7,6 +7,7 @@
    wrel <a,b> <x,y>                     Paths.wrelated_path
    res <cur a,b|-> <rel a,b>            Paths.resolve_item    -> mod,path|item  or  none
    box <id>=M:<f>,<f>..;<id>=E:<f>,<f>/<f>;<id>=N:<f>;<id>=O   (f = p<id> | o)   BoxCycle.box_decisions -> owner.index=0|1 ...
+   ucyc <graph>                         BoxCycle.union_cycle_b -> 1 | 0
    layout <split:0|1> <extra paths a,b;c|-> <items modpath|prefix|name|emitted; ...>   Pipeline.layout_pred
    uniq <existing a,b|-> <simple>       Pipeline.generate_unique_name *)
 
@@ -92,7 +93,7 @@ let run (line : string) : string =
     (match Model.resolve_item (path_of a) (path_of b) with
      | Some (m, it) -> path_to m ^ "|" ^ os it
      | None -> "none")
-  | ["box"; g] ->
+  | [("box" | "ucyc") as cmd; g] ->
     let items = List.map (fun t ->
         match String.split_on_char '=' t with
         | [id; body] ->
@@ -109,6 +110,7 @@ let run (line : string) : string =
             end in
           (id, it)
         | _ -> failwith ("bad item " ^ t)) (split_on ';' g) in
+    if cmd = "ucyc" then (if Model.union_cycle_b items then "1" else "0") else
     String.concat " " (List.map (fun ((o, i), b) ->
         Printf.sprintf "%d.%d=%d" (int_of_nat o) (int_of_nat i) (if b then 1 else 0)) (Model.box_decisions items))
   | ["layout"; split; extra; items] ->
